@@ -87,6 +87,9 @@ mod bandwidth;
 mod multistream_select;
 pub mod utils;
 
+#[cfg(feature = "verif")]
+pub mod verif;
+
 #[cfg(test)]
 mod mock;
 
